@@ -60,10 +60,12 @@ def run_flag(job):
     for name in NAMES:
         for r in (1.0, 0.5):
             rec.clear()
-            a = np.array([[0], [1], [1]])
-            b = np.array([1, 0, 1])
-            res = ns['numba_mi'](a, b, name, r)
-            ok = len(rec) == 1 and rec[0][3] == (name == 'MI-numba-randomized') and float(rec[0][2]) == r and list(rec[0][0]) == [0, 1, 1] and list(rec[0][1]) == [1, 0, 1] and res == 0.25
+            ok = True
+            # the feature goes in first and the conditioning target second, whatever their cardinalities
+            for fa, tb in (([0, 1, 1], [1, 0, 1]), ([0, 0, 1, 1], [0, 1, 2, 3]), ([0, 1, 2, 3], [0, 0, 1, 1]), ([5, 5, 5], [0, 1, 1])):
+                rec.clear()
+                res = ns['numba_mi'](np.array([[v] for v in fa]), np.array(tb), name, r)
+                ok = ok and len(rec) == 1 and rec[0][3] == (name == 'MI-numba-randomized') and float(rec[0][2]) == r and list(rec[0][0]) == fa and list(rec[0][1]) == tb and res == 0.25
             if ok and not out.twin:
                 out.concrete_ok()
             else:
@@ -133,12 +135,15 @@ def _replay(w):
         from outrank.algorithms import importance_estimator as ie
         rec = []
         orig = ie.ranking_mi_numba
-        ie.ranking_mi_numba = types.SimpleNamespace(mutual_info_estimator_numba=lambda a, b, approximation_factor=None, cardinality_correction=None: rec.append((approximation_factor, cardinality_correction)) or 0.0)
+        ie.ranking_mi_numba = types.SimpleNamespace(mutual_info_estimator_numba=lambda a, b, approximation_factor=None, cardinality_correction=None: rec.append((approximation_factor, cardinality_correction, a, b)) or 0.0)
+        bad = False
         try:
-            ie.numba_mi(np.array([[0], [1], [1]]), np.array([1, 0, 1]), w['name'], w['ratio'])
+            for fa, tb in (([0, 1, 1], [1, 0, 1]), ([0, 0, 1, 1], [0, 1, 2, 3]), ([0, 1, 2, 3], [0, 0, 1, 1]), ([5, 5, 5], [0, 1, 1])):
+                rec.clear()
+                ie.numba_mi(np.array([[v] for v in fa]), np.array(tb), w['name'], w['ratio'])
+                bad = bad or len(rec) != 1 or rec[0][1] != (w['name'] == 'MI-numba-randomized') or float(rec[0][0]) != w['ratio'] or list(rec[0][2]) != fa or list(rec[0][3]) != tb
         finally:
             ie.ranking_mi_numba = orig
-        bad = len(rec) != 1 or rec[0][1] != (w['name'] == 'MI-numba-randomized') or float(rec[0][0]) != w['ratio']
         return {'reproduced': bool(bad), 'signature': 'C03:flag-dispatch', 'what': f'numba_mi({w["name"]!r}, ratio={w["ratio"]}) forwarded (ratio, correction) = {rec}'}
     Y, X = w['Y'], w['X']
     got = KM.real_mi(Y, X, 1.0, True)
